@@ -56,7 +56,7 @@ def run():
         refused_first = lambda e: e["fn"] == "whist" and any(s["outcome"] == "ValueError" and s["frame"] for s in e["steps"][:1])
         c.negative_from(c.events, refused_first, lambda e: e["steps"][0].__setitem__("outcome", "IndexError"), "C20.outcome")
         c.negative_from(c.events, refused_first, lambda e: e["steps"][0].__setitem__("frame", False), "C20.frame")
-        c.negative_from(c.events, lambda e: e["fn"] == "reject_misc" and e["outcome"] == "ValueError",
+        c.negative_from(c.events, lambda e: e["fn"] == "reject_misc" and e["outcome"] == "ValueError" and e["kind"] != "no_sampler",
                         lambda e: e.__setitem__("outcome", "returned:NoneType"), "C20.")
     c.rule = ("Weaver-level: every maximal history of MC_Weaver that contains a refused request (inverted range, negative start, stop beyond "
               "the length - the frame condition is an action property of the model) replayed on a real Weaver, plus seeded random histories "
